@@ -3,7 +3,7 @@ from harness import units as UN, gen
 from harness.pcommon import part_unit, j_true, malformed
 
 ID = "C01"
-ALGOS = ["greedy", "roundrobin", "multifit", "kk", "cg", "ckk", "snp", "rnp", "dp", "ilp", "cbldm"]
+ALGOS = ["greedy", "roundrobin", "bidir", "multifit", "kk", "cg", "ckk", "snp", "rnp", "dp", "ilp", "cbldm"]
 RULE = ("11 partitioners x formats list/array/dict(str,int)/names+valueof: bounded-exhaustive item lists of length <= 3 over {0,1,2,3,5} x k in 1..5 "
         "(rotating subset in the quick tier; complete greedy with every one of its 16 switch vectors x 5 objectives on a rotating subset), structured random "
         "lists (zeros, all-equal, k > n, values up to 2^48) with n <= 9 (exact searches n <= 8, dp/ilp n <= 7). Non-trivial: >= 3 items, >= 2 bins, not all "
